@@ -1110,20 +1110,33 @@ def compression_rules(A, fl, rule):
             continue
         n_c += 1
         ga = set(v.guard_atoms())
-        m1 = match("getattr(self, '_' + _elem(%s, _k))(r['response'])" % enc_t,
+        # the offered encoding: the n-th comma-separated item of Accept-Encoding without its
+        # parameters - taken from a list built up front or computed item by item
+        H_ = "environ.get('HTTP_ACCEPT_ENCODING', '')"
+
+        def offered(e_):
+            for pat in ("_elem(%s, _k)" % enc_t,
+                        "_elem(%s.split(','), _k).split(';')[0].strip()" % H_):
+                c_ = match(pat, e_)
+                if c_ is not None:
+                    return txt(c_['k'])
+            return None
+        m1 = match("getattr(self, '_' + _e)(r['response'])",
                    ast.parse(wr[0][1], mode='eval').body)
-        m2 = match("r['headers'] + [('Content-Encoding', _elem(%s, _k2))]" % enc_t,
+        m2 = match("r['headers'] + [('Content-Encoding', _e2)]",
                    ast.parse(wh[0][1], mode='eval').body)
-        A.check(m1 is not None and m2 is not None and txt(m1['k']) == txt(m2['k2']),
+        k1 = offered(m1['e']) if m1 else None
+        k2 = offered(m2['e2']) if m2 else None
+        etxt = txt(m1['e']) if m1 else None
+        A.check(k1 is not None and k2 is not None and k1 == k2 and txt(m1['e']) == txt(m2['e2']),
                 rule + '.declared<=>compressed', '%s: the declared encoding names the function '
                 'that compressed the body, and it is one the request offered' % name,
                 A.site(fi, v.node(wr[0][0])), key='%s-compress-label' % name,
                 detail=[wr[0][1], wh[0][1]],
                 behaviour='the body is gzip but declared deflate (or an encoding the client did '
                           'not offer is used)')
-        k = txt(m1['k']) if m1 else '0'
         need = [('self.http_compression', True),
-                ('_elem(%s, %s) in self.compression_methods' % (enc_t, k), True)]
+                ('%s in self.compression_methods' % (etxt or '?'), True)]
         forms = [int_ordering(v.ev[i].expr, v.ev[i].pol, sym) for i in v.guards()]
         forms = [f for f in forms if f is not None and 'L' in f[0]]
         A.check(all(g in ga for g in need) and forms == [({'L': 1, 'T': -1}, 0)],
@@ -1878,8 +1891,10 @@ def blocking_calls(A, fi, ctx, args, depth=0, stack=(), memo=None, cut=None):
                     bounded = 'timeout' in kw or (
                         'block' in kw and match('False', kw['block']) is not None) or \
                         (c.args and match('False', c.args[0]) is not None)
-                    wrapped = i + 1 < len(evs) and evs[i + 1].kind == 'call' and \
-                        txt(evs[i + 1].expr).startswith('asyncio.wait_for(' + t)
+                    nxt_ = next((x_ for x_ in evs[i + 1:] if x_.kind == 'call' and
+                                 x_.depth == 0), None)
+                    wrapped = nxt_ is not None and \
+                        txt(nxt_.expr).startswith('asyncio.wait_for(' + t)
                     if not bounded and not wrapped:
                         blk = 'queue.get() without timeout'
                 elif pr in ('task.join', 'event.wait'):
@@ -2530,6 +2545,25 @@ def driver_queue_rule(A, rule):
                               'session learns of the closed transport only by ping timeout, '
                               'with the wrong reason')
     A.floor(rule, 'tornado receive queue constructions', n, 1)
+
+
+def create_event_rule(A, fl, rule):
+    """create_event() returns the event object of the async model (the monitor waits on it)."""
+    srv = A.model.cls(fl['server'])
+    ce = A.model.find_method(srv, 'create_event')
+    if ce is None:
+        raise AnalysisError('%s: create_event vanished' % rule)
+    ps = [p for p in A.paths(A.enum(follow_handlers=False), ce, srv) if p.outcome == 'return']
+    A.floor(rule, '%s create_event paths' % fl['name'], len(ps), 1)
+    for p in ps:
+        c = unawait(p.value)
+        A.check(isinstance(c, ast.Call) and txt(c.func) in ("self._async['event']",
+                                                            'asyncio.Event'),
+                rule + '.monitor-armed', '%s create_event() returns the event it created'
+                % fl['name'], A.site(ce), key='%s-create-event-return' % fl['name'],
+                detail=txt(p.value),
+                behaviour='the monitor task dies at its first wait: vanished clients are never '
+                          'dropped')
 
 
 def last_ping_writers_rule(A, fl, rule):
